@@ -58,6 +58,10 @@ func (p *Pool[T]) Put(x T, size int) {
 		return
 	}
 
+	// file x under the largest size class it can serve completely, so that
+	// Get never hands out an object smaller than the class it asked for.
+	size = pmath.FloorToPowerOfTwo(size)
+
 	if idx := (size - 1) / p.stepSize; idx < len(p.pool) {
 		p.pool[idx].Put(x)
 	}
